@@ -36,6 +36,12 @@ type stubDir struct {
 	tname  string
 }
 
+type callRepl struct {
+	from   string // printed name of the external function, e.g. "time.After"
+	target *ssa.Function
+	pkg    *ssa.Package
+}
+
 type Program struct {
 	fset          *token.FileSet
 	prog          *ssa.Program
@@ -44,6 +50,7 @@ type Program struct {
 	stubs         map[string]*stubDir
 	merge         map[string]bool
 	goIgnore      map[string]bool
+	callRepl      map[string]*callRepl
 	externGlobals map[string]func(w *Worker, t types.Type) Value
 	overlay       map[string][]byte
 	overlayFiles  map[string]string // virtual -> real
@@ -164,7 +171,7 @@ func LoadProgram(rootDirs []string, harnessFilter func(file string) bool) (*Prog
 	}
 	prog, spkgs := ssautil.Packages(pkgs, ssa.InstantiateGenerics|ssa.SanityCheckFunctions&0)
 	P := &Program{fset: fset, prog: prog, pkgs: pkgs, roots: map[*ssa.Package]bool{},
-		stubs: map[string]*stubDir{}, merge: map[string]bool{}, goIgnore: map[string]bool{},
+		stubs: map[string]*stubDir{}, merge: map[string]bool{}, goIgnore: map[string]bool{}, callRepl: map[string]*callRepl{},
 		externGlobals: map[string]func(w *Worker, t types.Type) Value{},
 		overlay:       ov, overlayFiles: files, harnessFuncs: map[string]*ssa.Function{},
 		maxSymIndex: 4096, maxDepth: 400, maxConcretize: 70, maxAlloc: 8192,
@@ -333,6 +340,17 @@ func (P *Program) applyDirective(kind, rest string, cur *ssa.Package) error {
 			return err
 		}
 		P.stubs[src.String()] = &stubDir{kind: "stub", target: dst, tname: dst.String()}
+	case "replace-call":
+		parts := strings.SplitN(rest, "=", 2)
+		if len(parts) != 2 {
+			return fmt.Errorf("bad replace-call directive %q", rest)
+		}
+		dst, err := P.findFunc(parts[1], cur)
+		if err != nil {
+			return err
+		}
+		from := strings.TrimSpace(parts[0])
+		P.callRepl[from] = &callRepl{from: from, target: dst, pkg: cur}
 	case "option":
 		for _, o := range strings.Fields(rest) {
 			switch o {
